@@ -41,6 +41,22 @@ var derivedPatterns = []struct{ scenario, cid, part, why string }{
 	{"lindell17-sign", "sign/Lindell17SignRound4UNICAST:", ".n.natPlus.", "a Paillier ciphertext is encoded together with the modulus of its group (N, N^2: the primary's long-term public key); only the value part is random"},
 }
 
+// replicatedLeaves: unicast leaves that legitimately carry the same value to
+// several recipients (cross-recipient sub-check only; they must still change
+// with the sender's stream). scenario, message, prefix of the path, reason.
+var replicatedLeaves = []struct{ scenario, cid, prefix, why string }{
+	{"gennaro-cnf-wide", "dkg/GennaroDKGRound1UNICAST:", ".share.", "CNF (replicated) secret sharing: the sub-share of a clause, and its Pedersen blinding, is one draw that goes to every holder outside the clause's unqualified set, so two recipients outside the same set receive the same coordinate by construction"},
+}
+
+func isReplicatedLeaf(scName, cid, path string) bool {
+	for _, p := range replicatedLeaves {
+		if p.scenario == scName && p.cid == cid && strings.HasPrefix(path, p.prefix) {
+			return true
+		}
+	}
+	return false
+}
+
 func isDerivedLeaf(scName, cid, path string) bool {
 	if _, ok := derivedLeaves[fmt.Sprintf("%s|%s|%s", scName, cid, cbor.NormPath(path))]; ok {
 		return true
@@ -341,7 +357,7 @@ func RunC07(rc *harness.RunCtx) harness.Outcome {
 					continue
 				}
 				key := fmt.Sprintf("%s|%s|%s", scName, stripNS(w.CID), cbor.NormPath(l.Path))
-				if scName == "gennaro" || scName == "canetti" || scName == "session" {
+				if scName == "gennaro" || scName == "gennaro-cnf-wide" || scName == "canetti" || scName == "session" {
 					return fail("value-repeats-across-sessions", key, "party %d sent the same value at %s in two sessions with different random streams", i, l.Path)
 				}
 				if isDerivedLeaf(scName, stripNS(w.CID), l.Path) {
@@ -378,6 +394,10 @@ func RunC07(rc *harness.RunCtx) harness.Outcome {
 							continue
 						}
 						if isDerivedLeaf(scName, stripNS(cid), l.Path) {
+							continue
+						}
+						if isReplicatedLeaf(scName, stripNS(cid), l.Path) {
+							probes["cross_recipient_replicated_by_construction"]++
 							continue
 						}
 						key := fmt.Sprintf("%s|%s|%s", scName, stripNS(cid), cbor.NormPath(l.Path))
@@ -431,6 +451,7 @@ func C07Workloads() []harness.Workload {
 	return []harness.Workload{
 		c07Workload("session", false),
 		c07Workload("gennaro", false),
+		c07Workload("gennaro-cnf-wide", false),
 		c07Workload("canetti", false),
 		c07Workload("lindell22-bip340", false),
 		c07Workload("dkls23-bbot", true),
